@@ -465,6 +465,169 @@ def block_independence():
     return n, bad
 
 
+def check_edge_list_discipline(rep):
+    """Whole-function site obligations on get_edges and _check_polarity (their ASTs, re-read on every run), from which
+    two statements about *every* tape follow by induction over the execution, given non-negative durations:
+
+      monotone   the edge list is non-decreasing and its last element is <= the running time `tstates`:
+                 `tstates` is initialised to first_edge and afterwards only ever changed by `tstates += <duration>`;
+                 every `edges.append(X)` appends `tstates` (first_edge before tstates exists); the only in-place change
+                 of an element is `edges[-1] += d` directly after `tstates += d` with the same d; no other writer of
+                 `edges` / `tstates` (pop() only shortens);
+      indices    every DataBlock(data, s, e, ...) has s <= e < len(edges): e is `len(edges) - 1` at the time of the call,
+                 s is either the same expression or the variable `start`, assigned `len(edges) - 1` earlier in the same
+                 block iteration with only append / in-place-add statements on `edges` in between (the list does not
+                 shrink); the only pop() is after the loop and is followed by `data_blocks[-1].adjust(len(edges) - 1)`.
+    Durations come from TapeBlockTimings (pulses, zero, one, tail, pause): non-negative by the parsers' construction
+    (unsigned file fields), stated as an assumption."""
+    import skoolkit.tape as T
+    from pyvc.engine import func_ast
+    name = 'skoolkit.tape.get_edges / _check_polarity [edge list discipline]'
+    results = []
+    gnode, _ = func_ast(T.get_edges)
+    cnode, _ = func_ast(T._check_polarity)
+    duration_names = {'duration', 'd', 'timings.tail', 'timings.pause'}
+
+    def parents(root):
+        par = {}
+        for n in ast.walk(root):
+            for c in ast.iter_child_nodes(n):
+                par[c] = n
+        return par
+    for fnode, label in ((gnode, 'get_edges'), (cnode, '_check_polarity')):
+        par = parents(fnode)
+        # --- writers of tstates
+        for n in ast.walk(fnode):
+            if isinstance(n, ast.Assign) and any(isinstance(t, ast.Name) and t.id == 'tstates' for t in n.targets):
+                results.append(('%s/L%d/tstates_initialised_to_first_edge' % (label, n.lineno - fnode.lineno), label == 'get_edges' and ast.unparse(n.value) == 'first_edge', ast.unparse(n)))
+            if isinstance(n, ast.AugAssign) and isinstance(n.target, ast.Name) and n.target.id == 'tstates':
+                ok = isinstance(n.op, ast.Add) and ast.unparse(n.value) in duration_names
+                results.append(('%s/L%d/tstates_only_grows_by_a_duration' % (label, n.lineno - fnode.lineno), ok, ast.unparse(n)))
+            if isinstance(n, (ast.For, ast.comprehension)) and any(isinstance(t, ast.Name) and t.id in ('tstates', 'edges') for t in ast.walk(n.target)):
+                results.append(('%s/L%d/no_loop_rebinds_tstates_or_edges' % (label, getattr(n, 'lineno', 0) - fnode.lineno), False, ast.unparse(n.target)))
+        # --- the loop variables that stand for durations are drawn from the timing sequences only
+        for n in ast.walk(fnode):
+            if isinstance(n, ast.For):
+                tnames = [t.id for t in ast.walk(n.target) if isinstance(t, ast.Name)]
+                if 'd' in tnames or 'duration' in tnames:
+                    src = ast.unparse(n.iter)
+                    ok = src in ('timings.pulses', 'timings.one if b & 128 else timings.zero', 'b_timings[b]', 'bt[:num_pulses]')
+                    results.append(('%s/L%d/duration_variable_drawn_from_timings' % (label, n.lineno - fnode.lineno), ok, '%s in %s' % (ast.unparse(n.target), src)))
+        # --- writers of edges
+        for n in ast.walk(fnode):
+            if isinstance(n, ast.Call) and isinstance(n.func, ast.Attribute) and isinstance(n.func.value, ast.Name) and n.func.value.id == 'edges':
+                oid = '%s/L%d/edges.%s' % (label, n.lineno - fnode.lineno, n.func.attr)
+                if n.func.attr == 'append':
+                    arg = ast.unparse(n.args[0]) if len(n.args) == 1 else None
+                    # first_edge is appended only before tstates exists (it equals first_edge then)
+                    first = [m for m in ast.walk(fnode) if isinstance(m, ast.Assign) and any(isinstance(t, ast.Name) and t.id == 'tstates' for t in m.targets)]
+                    ok = arg == 'tstates' or (arg == 'first_edge' and first and n.lineno < first[0].lineno)
+                    results.append((oid + '/appends_the_running_time', ok, ast.unparse(n)))
+                elif n.func.attr == 'pop':
+                    # only after the block loop, guarded by the tail test, followed by the adjustment of the last data block
+                    stmt = par[n]
+                    holder = par.get(stmt)
+                    ok = (label == 'get_edges' and isinstance(holder, ast.If) and holder in fnode.body and ast.unparse(holder.test) == 'edges[-1] == tail'
+                          and any(ast.unparse(x).replace(' ', '') == 'data_blocks[-1].adjust(len(edges)-1)' for y in holder.body for x in ast.walk(y) if isinstance(x, ast.Expr)))
+                    results.append((oid + '/only_the_final_tail_removal', ok, ast.unparse(holder) if isinstance(holder, ast.If) else ast.unparse(stmt)))
+                else:
+                    results.append((oid + '/no_other_list_method', False, ast.unparse(n)))
+            if isinstance(n, (ast.Assign, ast.AugAssign)):
+                tgts = n.targets if isinstance(n, ast.Assign) else [n.target]
+                for t in tgts:
+                    if isinstance(t, ast.Name) and t.id == 'edges':
+                        ok = label == 'get_edges' and isinstance(n, ast.Assign) and ast.unparse(n.value) == '[first_edge]'
+                        results.append(('%s/L%d/edges_created_as_[first_edge]' % (label, n.lineno - fnode.lineno), ok, ast.unparse(n)))
+                    if isinstance(t, ast.Subscript) and isinstance(t.value, ast.Name) and t.value.id == 'edges':
+                        # edges[-1] += d directly preceded (same block, two statements up at most, past an `if`) by tstates += d
+                        blk = par[n]
+                        ok = isinstance(n, ast.AugAssign) and isinstance(n.op, ast.Add) and ast.unparse(t.slice) == '-1'
+                        if ok:
+                            anc = n
+                            found = False
+                            while anc in par and not found:
+                                holder = par[anc]
+                                for field in ('body', 'orelse'):
+                                    seq = getattr(holder, field, None)
+                                    if isinstance(seq, list) and anc in seq:
+                                        prev = seq[:seq.index(anc)]
+                                        if prev and isinstance(prev[-1], ast.AugAssign) and ast.unparse(prev[-1]) == 'tstates += %s' % ast.unparse(n.value):
+                                            found = True
+                                        elif prev:
+                                            anc = None
+                                        break
+                                if anc is None or found:
+                                    break
+                                anc = holder
+                            ok = found
+                        results.append(('%s/L%d/in_place_change_tracks_the_running_time' % (label, n.lineno - fnode.lineno), ok, ast.unparse(n)))
+    # --- DataBlock index arguments
+    par = parents(gnode)
+    loops = [n for n in gnode.body if isinstance(n, ast.For) and ast.unparse(n.iter) == 'enumerate(blocks)']
+    results.append(('get_edges/one_block_loop', len(loops) == 1, ''))
+    for n in ast.walk(gnode):
+        if isinstance(n, ast.Call) and isinstance(n.func, ast.Name) and n.func.id == 'DataBlock':
+            oid = 'get_edges/L%d/DataBlock' % (n.lineno - gnode.lineno)
+            a = [ast.unparse(x).replace(' ', '') for x in n.args]
+            ok_e = len(a) >= 3 and a[2] == 'len(edges)-1'
+            ok_s = len(a) >= 3 and a[1] in ('len(edges)-1', 'start')
+            if ok_s and a[1] == 'start' and loops:
+                # `start = len(edges) - 1` earlier in the same iteration of the block loop, in a statement list that encloses the call
+                assigns = [m for m in ast.walk(loops[0]) if isinstance(m, ast.Assign) and any(isinstance(t, ast.Name) and t.id == 'start' for t in m.targets)]
+                ok_s = len(assigns) == 1 and ast.unparse(assigns[0].value).replace(' ', '') == 'len(edges)-1' and assigns[0].lineno < n.lineno
+                if ok_s:
+                    holder = par[assigns[0]]
+                    ok_s = any(x is n for x in ast.walk(holder))
+            results.append((oid + '/end_index_is_the_last_edge', ok_e, ast.unparse(n)))
+            results.append((oid + '/start_index_taken_from_the_list_length_earlier_in_the_iteration', bool(ok_s), ast.unparse(n)))
+    nb = len(results)
+    if nb < 20:
+        rep.violation('C11/edge-list/vacuous', 'only %d site obligations generated for get_edges (expected at least 20)' % nb, no_input=True)
+    for oid, ok, detail in results:
+        rep.add('C11/edge-list/' + oid, 'proved' if ok else 'failed', 'ast-dataflow', 0.0, name)
+        if not ok:
+            # the discipline is a sufficient shape, not the statement itself: a failing site is a violation only with a
+            # concrete tape that breaks the statement; otherwise the function has left the recognised shape (undecided)
+            r = edges_monotone_search()
+            if r.get('diffs'):
+                rep.violation('C11/edge-list/' + oid.split('/L')[0] + '/' + oid.rsplit('/', 1)[1], '%s: `%s`: %s' % (oid, detail[:160], r['diffs'][:1]),
+                              {'case': r.get('case', {'edge_list': True}), 'observed_vs_expected': r.get('diffs', []), 'obligation': oid})
+            else:
+                rep.downgraded.append({'function': name, 'reason': 'site obligation %s no longer holds (`%s`) and no tape was found on which the edge list decreases or a data block index range is malformed' % (oid, detail[:120])})
+    rep.assume('get_edges: all durations in TapeBlockTimings (pulses, zero, one, tail, pause) are non-negative integers (unsigned fields of the tape formats)')
+
+
+def edges_monotone_search(n=400):
+    """Concrete search for the edge-list statements: random block lists through the real get_edges."""
+    import random
+    import skoolkit.tape as T
+    rnd = random.Random(21)
+    for t in range(n):
+        blocks = []
+        for b in range(rnd.randrange(1, 4)):
+            pulses = [(rnd.randrange(1, 4), rnd.choice((0, 1, 500, 2168))) for _ in range(rnd.randrange(0, 3))]
+            zero = tuple(rnd.choice((0, 100, 855)) for _ in range(rnd.randrange(1, 3)))
+            one = tuple(rnd.choice((0, 200, 1710)) for _ in range(rnd.randrange(1, 3)))
+            data = [rnd.randrange(256) for _ in range(rnd.randrange(0, 4))]
+            tm = T.TapeBlockTimings(pulses, zero, one, pause=rnd.choice((0, 3500)), used_bits=rnd.randrange(1, 9), tail=rnd.choice((0, 0, 945)), polarity=rnd.choice((None, 0, 1)))
+            blk = T.TapeBlock(b + 1, data, tm)
+            blk.keys = None
+            blocks.append(blk)
+        fe, pol = rnd.choice((0, 0, 17)), rnd.randrange(2)
+        try:
+            edges, dbs = T.get_edges(blocks, fe, pol)
+        except Exception as ex:
+            return {'case': {'edge_list': True, 'trial': t}, 'diffs': [('get_edges raised', repr(ex)[:200], 'no exception')]}
+        edges = list(edges)
+        bad = [i for i in range(1, len(edges)) if edges[i] < edges[i - 1]]
+        if bad:
+            return {'case': {'edge_list': True, 'trial': t}, 'diffs': [('edges decrease at index %d' % bad[0], edges[max(0, bad[0] - 2):bad[0] + 2], 'non-decreasing')]}
+        for d in dbs:
+            if not 0 <= d.start <= d.end < max(1, len(edges)) + 1:
+                return {'case': {'edge_list': True, 'trial': t}, 'diffs': [('data block index range', [d.start, d.end, len(edges)], '0 <= start <= end < len(edges)')]}
+    return {'case': {}, 'diffs': []}
+
+
 def format_equivalence():
     """E over the small discrete dimensions: one data block expressed as TZX turbo (0x11), as TZX pure tone (0x12) +
     pulse sequence (0x13) + pure data (0x14), and as PZX PULS + DATA - for every used-bits count 1..8, two pause values
@@ -546,7 +709,7 @@ def run(tier):
     rep = common.Report('C11', tier, 'other', './check C11 --tier %s' % tier)
     rep.trust('pyvc, z3 for the kernel VCs; CPython for the bounded parts')
     rep.assume('kernel slices = both branches of `if 0 in timings.zero or 0 in timings.one:` in get_edges, located mechanically on every run; run with symbolic pulse durations in 1..65535 (or the literal 0 where the pattern says so) and symbolic start time')
-    rep.assume('the list-building loops of get_edges as a whole (pilot tones, pauses, polarity, data-block indices) are outside the VC generator: bounded only')
+    rep.assume('the list-building loops of get_edges as a whole (which pulses a block contributes: pilot tones, pauses, polarity adjustments) are outside the VC generator: bounded only; that the edge list is non-decreasing and the data-block index ranges are well-formed is proved by site obligations (check_edge_list_discipline)')
     quick = tier == 'quick'
     combos = [(a, b) for a in range(1, 5) for b in range(1, 5)] if not quick else [(1, 1), (2, 2), (1, 2), (2, 1), (1, 3), (3, 2), (4, 4), (2, 4)]
     t0 = time.time()
@@ -610,6 +773,7 @@ def run(tier):
     if badb:
         rep.violation('C11/block-independence', 'the pulse train of a data block with bit pulses %s / %s changes when it follows a block with %s / %s' % (badb[0][1][0], badb[0][1][1], badb[0][0][0], badb[0][0][1]),
                       {'case': {'first_block_timings': [list(x) for x in badb[0][0]], 'second_block_timings': [list(x) for x in badb[0][1]]}})
+    check_edge_list_discipline(rep)     # every tape: edges non-decreasing, data-block index ranges well-formed (site obligations)
     ne, bade = format_equivalence()
     rep.add_bulk(ne - len({b[:3] for b in bade}), 'exhaustive', 0, 'skoolkit.tape.parse_tzx / parse_pzx / get_edges (turbo, pure-data and PZX forms of one block)', n=ne)
     rep.exhaustive.append({'domain': 'used bits 1..8 x pause {0, 1000 ms} x 3 data lengths: TZX 0x11 == TZX 0x12+0x13+0x14 == PZX PULS+DATA (edges and data-block ranges)', 'size': ne, 'visited': ne, 'complete': True})
@@ -665,6 +829,13 @@ def replay(path):
         doc = json.load(f)
     case = doc.get('case')
     print('replaying', doc.get('key'), case)
+    if isinstance(case, dict) and 'edge_list' in case:
+        r = edges_monotone_search()
+        print(r['diffs'])
+        if r['diffs']:
+            print('VIOLATION property=C11 replay=%s' % path)
+            return 1
+        return 0
     if isinstance(case, dict) and 'format_equivalence' in case:
         n_, bad = format_equivalence()
         print(bad[:2])
